@@ -261,6 +261,27 @@ func checkCase(c Case) (f *evid.Failure) {
 			return fail("Decoder terminates", "more values than bytes", "termination", "no-termination")
 		}
 	}
+	// after the terminal error as well, nothing the Decoder has read is lost: what Buffered returns followed by
+	// what the reader has not delivered is the input from some point between the end of the last value returned
+	// and the start of the value that could not be completed
+	if gfinal != io.EOF {
+		buffered, _ := io.ReadAll(d.Buffered())
+		restAll := append(append([]byte{}, buffered...), delivered[rd.pos:]...)
+		o := len(delivered) - len(restAll)
+		lo, hi := 0, len(delivered)
+		if n := len(got); n > 0 && n-1 < len(l.end) {
+			lo = l.end[n-1]
+		}
+		if n := len(got); n < len(l.start) {
+			hi = l.start[n]
+		}
+		if hi > len(delivered) {
+			hi = len(delivered)
+		}
+		if lo <= hi && (o < lo || o > hi || !bytes.Equal(restAll, delivered[o:])) {
+			return fail("Buffered() followed by the unread remainder of the reader equals the unconsumed input (after the terminal error)", fmt.Sprintf("after %d values and %v: %d buffered + %d unread = input[%d:]", len(got), gfinal, len(buffered), len(delivered)-rd.pos, o), fmt.Sprintf("input[o:] for o in [%d,%d]", lo, hi), "buffered-after-error")
+		}
+	}
 	if rerr == io.EOF {
 		if len(got) != len(want) {
 			return fail("all the values encoding/json yields are returned when the reader ends with io.EOF", fmt.Sprintf("%d values then %v", len(got), gfinal), fmt.Sprintf("%d values then %v", len(want), wfinal), "missing-value")
